@@ -392,7 +392,15 @@ class Handle:
                     a.purge()
                 else:
                     getattr(a, what).purge()
-                return "ok"
+                # a purge must at least purge the application's OWN data (whatever its id looks like)
+                left = []
+                if what in ("broker", "app") and a.broker.count_invocations() != 0:
+                    left.append(f"queue={a.broker.count_invocations()}")
+                if what in ("orchestrator", "app") and a.orchestrator.count_invocations() != 0:
+                    left.append(f"invocations={a.orchestrator.count_invocations()}")
+                if what in ("trigger", "app") and list(a.trigger.get_valid_conditions()):
+                    left.append("valid-conditions")
+                return "ok" if not left else "ineffective:" + ",".join(left)
             raise ValueError(op)
         except BaseException as e:  # noqa: BLE001
             return _exc(e)
